@@ -287,3 +287,47 @@ func H_C20_seqnos() {
 	quiesce()
 	assert(blockedThreads() == 0, "no goroutine left blocked")
 }
+
+// H_C20_precancelled: the caller's context is already finished when the wrapper
+// is entered although its deadline is far away - cbMetadata.Save runs its writes
+// in an errgroup whose context is cancelled as soon as one sibling fails, and
+// register/monitor/Clear issue several operations on one context. Under every
+// server behaviour the wrapper returns an error and the dispatched operation is
+// not left queued: at the moment the wrapper returns it has either completed or
+// been cancelled.
+func H_C20_precancelled() {
+	vNewGocb()
+	g := vG
+	tim := choose("timing", 5)
+	g.timing = func(string) int { return tim }
+	vC20ServerErr = nil
+	if nondetBool("refused") {
+		vC20ServerErr = vErrServer
+	}
+	g.kv = vKVAnswer(nil)
+	ctx, cancel := context.WithTimeout(context.Background(), time.Hour)
+	cancel()
+	var err error
+	switch choose("wrapper", 3) {
+	case 0:
+		err = UpsertXattrs(ctx, nil, "s", "c", []byte("id"), "cbgo", []byte("v"), 0)
+	case 1:
+		err = CreateDocument(ctx, nil, "s", "c", []byte("id"), []byte("v"), 0, 0)
+	case 2:
+		_, err = Get(ctx, nil, "s", "c", []byte("id"))
+	}
+	assert(err != nil, "no success is reported on a finished context")
+	if len(g.ops) == 0 {
+		cover("precancelled-dispatch-error")
+		assert(tim == 4, "only a dispatch error leaves no pending operation")
+	} else {
+		pending := g.ops[0]
+		assert(pending.delivered || pending.cancelled, "the dispatched operation has completed or was cancelled when the wrapper returns: it is not left queued")
+		if !pending.delivered {
+			cover("precancelled-cancelled")
+		}
+	}
+	quiesce()
+	assert(blockedThreads() == 0, "no goroutine is left blocked by a late or missing reply")
+	cover("precancelled")
+}
